@@ -436,9 +436,25 @@ fn c14_case(ctx: &mut Ctx, n: usize, kfail: usize, stdin_kind: &str, term: &str,
     run::begin_case();
     let dir = ctx.scratch("c14");
     let mut execs = vec![];
+    let mut want_errno = libc::ENOENT;
     for j in 0..n {
         let mut e = if j == kfail {
-            Exec::cmd(dir.join("no-such-program"))
+            // why it cannot be started varies: nothing there (ENOENT), no execute permission or a directory (EACCES)
+            use std::os::unix::fs::PermissionsExt;
+            match (n + kfail + stdin_kind.len() + term.len()) % 3 {
+                0 => Exec::cmd(dir.join("no-such-program")),
+                1 => {
+                    std::fs::write(dir.join("not-executable"), b"#!/bin/true\n").unwrap();
+                    std::fs::set_permissions(dir.join("not-executable"), std::fs::Permissions::from_mode(0o644)).unwrap();
+                    want_errno = libc::EACCES;
+                    Exec::cmd(dir.join("not-executable"))
+                }
+                _ => {
+                    std::fs::create_dir_all(dir.join("a-directory")).unwrap();
+                    want_errno = libc::EACCES;
+                    Exec::cmd(dir.join("a-directory"))
+                }
+            }
         } else {
             match earlier {
                 "cat-like" => stage_exec(ctx, j, &Stage { a: 1, b: 0, nerr: 0, linger: 0, code: 0, take: 0 }, &dir),
@@ -505,8 +521,8 @@ fn c14_case(ctx: &mut Ctx, n: usize, kfail: usize, stdin_kind: &str, term: &str,
             run::end_case();
             return;
         }
-        Some(Err(PopenError::IoError(e))) if e.raw_os_error() == Some(libc::ENOENT) => ctx.count("errors_verified", 1),
-        Some(Err(e)) => ctx.violation(&format!("C14/wrong-error/{}", term), &format!("expected the ENOENT of the failing command, got {}", e), w(J::Null)),
+        Some(Err(PopenError::IoError(e))) if e.raw_os_error() == Some(want_errno) => ctx.count("errors_verified", 1),
+        Some(Err(e)) => ctx.violation(&format!("C14/wrong-error/{}", term), &format!("expected the operating-system error {} of the failing command, got {}", want_errno, e), w(J::Null)),
         None => {}
     }
     // no later command was started
